@@ -322,6 +322,18 @@ pub fn tamper(out: &mut Out, tier: &str, seed: u64, c02: bool, c17: bool) {
             check(out, "secretbox.open_easy", what, len, &before, &r, rp.clone(), authentic);
             let model = len <= 24 && (authentic || idx % 13 == 0 || what.starts_with("trunc") || what.starts_with("ext"));
             if model { out.case("secretbox.open_easy", &[b(&before), b(c), b(nn), b(kk)], &open_res(&r), !what.starts_with("trunc")); }
+            // the same (shorter) box opened into a buffer sized for the message the receiver expects
+            if !authentic && mlen < len {
+                let before2: Vec<u8> = (0..len).map(|k| 0x80 | (k as u8 & 0x3f)).collect();   // position-dependent sentinel
+                let r2 = sb_open_easy(&before2, c, nn, kk);
+                out.search_evaluations += 1;
+                if c17 && r2.0.is_err() {
+                    let ok = r2.1 == before2 || (r2.1[..mlen].iter().all(|x| *x == 0) && r2.1[mlen..] == before2[mlen..]);
+                    if !ok { out.hit("secretbox.open_easy.buffer-after-failed-open.larger-buffer", format!("{} len {}: a buffer of {} bytes holds {} after the failed open", what, len, len, hx(&r2.1)), rp.clone()); }
+                }
+                if c02 && r2.0.is_ok() { out.hit("secretbox.open_easy.accepts-tampered.larger-buffer", format!("{} len {}", what, len), rp.clone()); }
+                if len <= 24 && what.starts_with("trunc") && c.len() >= 16 { out.case("secretbox.open_easy", &[b(&before2), b(c), b(nn), b(kk)], &open_res(&r2), true); }
+            }
             // open_easy_inplace: buffer holds the box
             let r = sb_open_easy_inplace(c, nn, kk);
             check(out, "secretbox.open_easy_inplace", what, len, c, &r, rp.clone(), authentic);
@@ -343,6 +355,33 @@ pub fn tamper(out: &mut Out, tier: &str, seed: u64, c02: bool, c17: bool) {
                 else if r.is_ok() { out.hit("obj.secretbox.accepts-tampered", format!("{} len {}", what, len), rp.clone()); }
                 else if r.is_panic() { out.hit("obj.secretbox.panics-on-tampered", format!("{} len {}", what, len), rp.clone()); }
             }
+        }
+        // the error value itself: two different corruptions of the same box must give the same text, and
+        // the text must not contain the authenticator of the rejected ciphertext, the plaintext or the key
+        if c17 && len >= 1 {
+            use dryoc::classic::crypto_secretbox::crypto_secretbox_open_easy;
+            let etext = |c: &[u8]| -> Option<String> { let mut mm = vec![SENT; c.len().saturating_sub(16)]; crypto_secretbox_open_easy(&mut mm, c, &n, &k).err().map(|e| format!("{} / {:?}", e, e)) };
+            let mut c1 = sbx.clone(); c1[16] ^= 1;            // body bit
+            let mut c2 = sbx.clone(); let l = c2.len(); c2[l - 1] ^= 0x40;   // another body (or tag) bit
+            let mut c3 = sbx.clone(); c3[0] ^= 1;             // tag bit
+            let texts: Vec<Option<String>> = vec![etext(&c1), etext(&c2), etext(&c3)];
+            out.search_evaluations += 3;
+            let rp = json!({"op":"secretbox.open_easy.error-text","key":hx(&k),"nonce":hx(&n),"box":hx(&sbx),"texts":texts});
+            if texts.iter().any(|t| t.is_none()) { out.hit("secretbox.open_easy.accepts-tampered", format!("len {}", len), rp.clone()); }
+            else if texts[0] != texts[1] || texts[0] != texts[2] { out.hit("secretbox.open_easy.error-text-depends-on-ciphertext", format!("len {}: {:?}", len, texts), rp.clone()); }
+            // the authenticator a forger needs: Poly1305 of the corrupted ciphertext under the one-time key
+            let ks = sodium::stream_xsalsa20(32, &n, &k);
+            let otk: [u8; 32] = ks[..32].try_into().unwrap();
+            for (c, t) in [(&c1, &texts[0]), (&c2, &texts[1])] {
+                let want = sodium::onetimeauth(&c[16..], &otk);
+                if let Some(t) = t { let low = t.to_lowercase(); if low.contains(&hx(&want)) || (m.len() >= 8 && low.contains(&hx(&m))) || low.contains(&hx(&k)) {
+                    out.hit("secretbox.open_easy.error-text-leaks", format!("len {}: the error text contains the authenticator of the rejected ciphertext (or the plaintext / key)", len), rp.clone()); } }
+            }
+            // box form
+            let btext = |c: &[u8]| -> Option<String> { let mut mm = vec![SENT; c.len().saturating_sub(16)]; crypto_box_open_easy(&mut mm, c, &n, &pka, &skb).err().map(|e| format!("{} / {:?}", e, e)) };
+            let mut b1 = bbx.clone(); b1[16] ^= 1; let mut b2 = bbx.clone(); b2[0] ^= 1;
+            out.search_evaluations += 2;
+            if btext(&b1) != btext(&b2) { out.hit("box.open_easy.error-text-depends-on-ciphertext", format!("len {}", len), json!({"op":"box.open_easy.error-text","box":hx(&bbx)})); }
         }
         // public-key box: tag/body bits, nonce, truncation, extension; sealed: epk bits too
         let mut bm: Vec<(String, Vec<u8>, [u8; 24])> = vec![("untampered".into(), bbx.clone(), n)];
